@@ -185,6 +185,12 @@ class PEval:
                         env[lhs["did"]] = cur * r if op == "*=" else cur + r if op == "+=" else cur - r if op == "-=" else cur / r
                     continue
                 raise NotClosedForm("assignment to " + txt(lhs))
+            if k == "UnaryOperator" and st.get("op") in ("++", "--"):
+                tgt = strip(st["c"][0])
+                if tgt.get("k") == "DeclRefExpr" and tgt.get("did") in env and env[tgt["did"]] is not None:
+                    env[tgt["did"]] = env[tgt["did"]] + (1 if st["op"] == "++" else -1)
+                    continue
+                raise NotClosedForm("increment of " + txt(tgt))
             if k in ("ForStmt", "WhileStmt", "DoStmt", "CXXForRangeStmt"):
                 raise NotClosedForm("loop")
             if k == "NullStmt":
